@@ -11,6 +11,13 @@ from . import common
 
 
 def main(argv=None):
+    import faulthandler
+    import signal
+
+    global _FH
+    if os.environ.get("XV_FAULT_DUMP"):
+        _FH = open(os.environ["XV_FAULT_DUMP"] + f".{os.getpid()}", "w")
+        faulthandler.register(signal.SIGUSR1, file=_FH, all_threads=True, chain=False)
     ap = argparse.ArgumentParser()
     ap.add_argument("prop")
     ap.add_argument("--tier", default=os.environ.get("VERIF_TIER") or "quick", choices=["quick", "thorough"])
